@@ -173,6 +173,72 @@ PA, PB, PC = z3.Reals("lemma_x lemma_y lemma_z")
 IA, IB, IC = z3.Ints("lemma_i lemma_j lemma_k")
 
 
+def forward_vc(training, with_lengths):
+    """P rung: SpecAugment.forward with draw_parameters / apply_parameters under CONTRACT (their own clauses: C08.P.draw_bounds,
+    C08.P.apply_masks): in training mode the result is apply_parameters(feats, draw_parameters(feats, lengths), lengths) with the very
+    tensors given - lengths omitted: a vector of N entries all equal to the number of frames T, for SYMBOLIC N and T -; in
+    evaluation mode the input itself comes back and nothing is drawn."""
+    import pydrobert.torch._img as IMG
+    from vf.pyvc import symtensor as stn
+
+    N, T, F, N0 = z3.Ints("N T F n0")
+    X = z3.Function("feats", z3.IntSort(), z3.IntSort(), z3.IntSort(), z3.RealSort())
+    LEN = z3.Function("lengths", z3.IntSort(), z3.IntSort())
+    name = "SpecAugment.forward[training=%s, lengths %s; symbolic N, T, F]" % (training, "given" if with_lengths else "omitted")
+
+    def thunk(I):
+        I.stubs.update(stn.stubs())
+        z = ip.to_z3
+        feats = stn.ST((N, T, F), lambda a, b, c: X(z(a), z(b), z(c)), "float")
+        lens = stn.ST((N,), lambda a: LEN(z(a)), "long") if with_lengths else None
+        calls = []
+        OUTF = z3.Function("apply_parameters_result", z3.IntSort(), z3.IntSort(), z3.IntSort(), z3.RealSort())
+        PARAMS, OUT = object(), stn.ST((N, T, F), lambda a, b, c: OUTF(z(a), z(b), z(c)), "float")
+
+        def draw(I2, a, k):
+            calls.append(("draw", a[1:], k))
+            return PARAMS
+
+        def apply_(I2, a, k):
+            calls.append(("apply", a[1:], k))
+            return OUT
+
+        I.contracts["SpecAugment.draw_parameters"] = draw
+        I.contracts["SpecAugment.apply_parameters"] = apply_
+        obj = ip.SObj(IMG.SpecAugment, {"training": training}, "spec_augment")
+        out = I.call(I.getattr(obj, "forward"), [feats] + ([lens] if with_lengths else []), {})
+        I.ex.ghost.update(calls=calls, feats=feats, lens=lens, PARAMS=PARAMS, OUT=OUT)
+        return out
+
+    def post(p):
+        if not api.returns(p):
+            return False
+        g = p.ghost
+        calls = g["calls"]
+        T0, F0 = z3.Ints("t0 f0")
+        same_t = lambda a, b: (z3.And(z3.BoolVal(hasattr(a, "elem") and len(a.shape) == 3), ip.to_z3(a.shape[0]) == N, ip.to_z3(a.shape[1]) == T, ip.to_z3(a.shape[2]) == F,
+                                      ip.to_z3(a.elem(N0, T0, F0)) == ip.to_z3(b.elem(N0, T0, F0))) if hasattr(a, "elem") and len(a.shape) == 3 else z3.BoolVal(False))  # equal as tensors (element at a generic position)
+        if not training:
+            return [("evaluation_mode_returns_the_input", same_t(p.value, g["feats"])), ("evaluation_mode_draws_nothing", z3.BoolVal(not calls))]
+        ok = len(calls) == 2 and calls[0][0] == "draw" and calls[1][0] == "apply" and not calls[0][2] and not calls[1][2] and len(calls[0][1]) == 2 and len(calls[1][1]) == 3
+        if not ok:
+            return [("one_draw_then_one_apply", z3.BoolVal(False))]
+        (f1, l1), (f2, pr, l2) = calls[0][1], calls[1][1]
+        want_len = (lambda n: LEN(n)) if with_lengths else (lambda n: T)
+        len_ok = lambda l: (z3.And(z3.BoolVal(len(l.shape) == 1), ip.to_z3(l.shape[0]) == N, z3.Implies(z3.And(0 <= N0, N0 < N), ip.to_z3(l.elem(N0)) == want_len(N0))) if hasattr(l, "elem") else z3.BoolVal(False))
+        return [("features_given_to_draw_and_apply_are_the_input", z3.And(same_t(f1, g["feats"]), same_t(f2, g["feats"]))),
+                ("apply_gets_the_drawn_parameters", z3.BoolVal(pr is g["PARAMS"])),
+                ("lengths_given_to_draw_and_apply_are_the_input_lengths" if with_lengths else "omitted_lengths_mean_every_frame", z3.And(len_ok(l1), len_ok(l2))),
+                ("result_is_what_apply_returned", same_t(p.value, g["OUT"]))]
+
+    return VC("C08.P.forward_composes", name, M, "SpecAugment.forward", thunk, pre=[N >= 1, T >= 0, F >= 1, 0 <= N0, N0 < N, 0 <= z3.Int("t0"), z3.Int("t0") < T, 0 <= z3.Int("f0"), z3.Int("f0") < F], posts=[("draw_then_apply", post)], inputs={"N": N, "T": T, "F": F}, timeout_ms=20000,
+              assumptions=["callee contracts: draw_parameters (C08.P.draw_bounds) and apply_parameters (C08.P.apply_masks) are replaced by opaque results; what is proved is the composition and the arguments passed"])
+
+
+def forward_vcs(ctx):
+    return [forward_vc(tr, wl) for tr in (True, False) for wl in (True, False)]
+
+
 def apply_vcs(ctx):
     return [apply_vc(True, True), apply_vc(True, False), apply_vc(False, True), apply_vc(False, False)]
 
